@@ -5,6 +5,7 @@ mod conv;
 mod fx;
 mod ledger;
 mod lex;
+mod mcp;
 mod cli;
 mod perm;
 mod preds;
@@ -53,6 +54,7 @@ fn main() {
         "C15" => robust::c15(tier),
         "C18" => conv::c18(tier),
         "C19" => conv::c19(tier),
+        "C20" => mcp::c20(tier),
         other => machinery_failure(&format!("mc-core has no engine for {other}")),
     };
     std::process::exit(code);
